@@ -84,3 +84,38 @@ func VH_C13_StdlibLast(na, nb int) {
 	vAssert(vNot(a.less(b)), "stdlib-only signature sorts before user code")
 	vAssert(b.less(a), "user code does not sort before stdlib-only signature")
 }
+
+func vhMainCount(s *Signature) int {
+	n := 0
+	for i := range s.Stack.Calls {
+		n = vIte(s.Stack.Calls[i].Func.IsPkgMain, n+1, n)
+	}
+	return n
+}
+
+// VH_C13_AggregateOrder: the bucket order produced by Aggregate (real sort
+// closure, all map iteration orders) honours the relevance contract.
+//
+//verif:prop C13
+//verif:param k quick=2..3 thorough=2..4
+//verif:param level 0,3
+//verif:param nf quick=1..2 thorough=1..2
+//verif:param perm quick=0,5 thorough=0..23
+//verif:summarize (*Signature).similar (*Signature).equal (*Signature).less (*Stack).less
+//verif:replay-iters 200
+func VH_C13_AggregateOrder(k, level, nf, perm int) {
+	s := vhSnapshot(k, famLoc, nf, nf, perm)
+	a := s.Aggregate(Similarity(level))
+	vReach("aggregated")
+	for i, b := range a.Buckets {
+		vAssert(vImplies(b.First, i == 0), "the bucket of the first goroutine comes first")
+		for j := i + 1; j < len(a.Buckets); j++ {
+			c := a.Buckets[j]
+			// b precedes c
+			if i > 0 || !b.First {
+				vAssert(vNot(vAnd(vNot(b.First), vAnd(vhAllStdlib(&b.Signature), vhHasUserCode(&c.Signature)))), "a stdlib-only bucket precedes a bucket with user code")
+				vAssert(vImplies(vNot(b.First), vhMainCount(&b.Signature) >= vhMainCount(&c.Signature)), "a bucket with fewer main frames precedes one with more")
+			}
+		}
+	}
+}
